@@ -9,10 +9,17 @@ import (
 	"bufio"
 	"bytes"
 	"context"
+	"crypto/ecdsa"
+	"crypto/elliptic"
+	"crypto/rand"
 	"crypto/sha256"
+	"crypto/tls"
+	"crypto/x509"
+	"crypto/x509/pkix"
 	"errors"
 	"fmt"
 	"io"
+	"math/big"
 	"net"
 	"strconv"
 	"strings"
@@ -458,6 +465,8 @@ type Origin struct {
 	// k >= 0 = answer after k bytes of the body; the rest is read and thrown
 	// away afterwards.
 	Early func(m *Msg) int
+	// TLS, if set, makes the origin speak TLS on every accepted connection.
+	TLS *tls.Config
 	// Raw, if set, is called with a fresh connection instead of the HTTP loop.
 	Raw func(c net.Conn)
 }
@@ -504,6 +513,12 @@ func (o *Origin) accept() {
 			defer c.Close()
 			if o.Raw != nil {
 				o.Raw(c)
+				return
+			}
+			if o.TLS != nil {
+				tc := tls.Server(c, o.TLS)
+				defer tc.Close()
+				o.serve(tc)
 				return
 			}
 			o.serve(c)
@@ -627,4 +642,27 @@ func ChunkEncode(body []byte, sizes []int) []byte {
 	}
 	out.WriteString("0\r\n\r\n")
 	return out.Bytes()
+}
+
+// SelfSigned returns a TLS server configuration with a throw-away certificate
+// for 127.0.0.1 (clients are expected not to verify it).
+func SelfSigned() (*tls.Config, error) {
+	key, err := ecdsa.GenerateKey(elliptic.P256(), rand.Reader)
+	if err != nil {
+		return nil, err
+	}
+	tmpl := &x509.Certificate{
+		SerialNumber: big.NewInt(1),
+		Subject:      pkix.Name{CommonName: "verif origin"},
+		NotBefore:    time.Now().Add(-time.Hour),
+		NotAfter:     time.Now().Add(24 * time.Hour),
+		KeyUsage:     x509.KeyUsageDigitalSignature,
+		ExtKeyUsage:  []x509.ExtKeyUsage{x509.ExtKeyUsageServerAuth},
+		IPAddresses:  []net.IP{net.IPv4(127, 0, 0, 1)},
+	}
+	der, err := x509.CreateCertificate(rand.Reader, tmpl, tmpl, &key.PublicKey, key)
+	if err != nil {
+		return nil, err
+	}
+	return &tls.Config{Certificates: []tls.Certificate{{Certificate: [][]byte{der}, PrivateKey: key}}}, nil
 }
